@@ -71,7 +71,9 @@ package linkedlist
 //@   requires @RI_List(l) && node != nil && (l.$in[node] || @Detached(node))
 //@   modifies Node.next, Node.prev, l.len, l.$at, l.$pos, l.$in
 //@   ensures [ri]      @RI_List(l)
-//@   ensures [result]  result == (old(l.$in)[node] && node != $addr(l.root))
+// B2 (ownership under interference): between the caller's last look at the list and this call another goroutine may have taken the node,
+// so in mode B2 the result is NOT determined by what the caller knew: only a true result proves that the caller now owns the node.
+//@   ensures [SEQ] [result]  result == (old(l.$in)[node] && node != $addr(l.root))
 //@   ensures [removed] result ==> l.len == old(l.len) - 1 && l.$in == $store(old(l.$in), node, false) && node.next == nil && node.prev == nil
 //@                       && (forall i int {l.$at[i]} :: l.$at[i] == (i < old(l.$pos)[node] ? old(l.$at)[i] : old(l.$at)[i + 1]))
 //@   ensures [same]    !result ==> l.len == old(l.len) && l.$in == old(l.$in) && l.$at == old(l.$at) && node.next == old(node.next) && node.prev == old(node.prev)
@@ -85,7 +87,8 @@ package linkedlist
 //@   props C01 C18
 //@   requires @RI_List(l)
 //@   modifies $alloc
-//@   ensures [len]   len(result) == l.len
+// B2: the snapshot is as long as the list was at that instant, which need not be the length the caller read before
+//@   ensures [SEQ] [len]   len(result) == l.len
 //@   ensures [elems] forall k int :: 0 <= k && k < l.len ==> result[k] == l.$at[k + 1]
 //@   ensures [fresh] l.len > 0 ==> $fresh(arr(result))
 //@   loop 1: invariant [pos]   l.$in[node] && len(nodes) <= l.len && (node == $addr(l.root) ? len(nodes) == l.len : l.$pos[node] == len(nodes) + 1)
